@@ -175,6 +175,17 @@ class PositionIndependentGrowDecider(MaxDepthDecider):
 class ProgressivelyTerminalDecider(BaseDecider):
     """Decides whether to restrict to non-recursive symbols based on the current depth, probabilistically."""
 
+    def __init__(self, random: RandomSource, grammar: Grammar):
+        super().__init__(random, grammar)
+        self.validate()
+
+    def validate(self) -> None:
+        # like the depth-limited deciders: a grammar whose starting symbol cannot reach a terminal is refused up-front
+        if self.grammar.get_min_tree_depth() >= INF_VALUE:
+            raise GeneticEngineError(
+                """The starting symbol of the grammar cannot reach any terminal: no program can be created.""",
+            )
+
     def choose_production_alternatives(self, ty: type, alternatives: list[type], ctx: LocalSynthesisContext) -> type:
         assert len(alternatives) > 0, "No alternatives presented"
 
@@ -182,7 +193,12 @@ class ProgressivelyTerminalDecider(BaseDecider):
         if target == INF_VALUE:
             target = self.grammar.get_min_tree_depth() * len(self.grammar.recursive_prods)
 
+        def productive(n):
+            return self.grammar.get_distance_to_terminal(n) < INF_VALUE
+
         def w(n):
+            if not productive(n):
+                return 0  # cannot reach a terminal: expanding it would never end
             if n in self.grammar.recursive_prods:
                 return target // (ctx.depth + 1)
             else:
@@ -196,7 +212,7 @@ class ProgressivelyTerminalDecider(BaseDecider):
         if not any(weights):
             # the depth heuristic leaves no candidate (e.g. every alternative is already at the maximum depth):
             # decide by the production weights alone instead of always returning the first alternative
-            weights = [production_weights.get(alt, 1.0) for alt in alternatives]
+            weights = [production_weights.get(alt, 1.0) if productive(alt) else 0 for alt in alternatives]
         return self.random.choice_weighted(alternatives, weights)
 
 
